@@ -148,6 +148,22 @@ func (e *Exec) ev(st *State, x ast.Expr) Val {
 	case *ast.BinaryExpr:
 		if x.Op == token.LAND || x.Op == token.LOR {
 			a := e.ev(st, x.X)
+			if containsCall(x.Y) {
+				// the right operand runs only on one side: fork, evaluate it there, and merge, so that its
+				// effects (heap havoc, ghost flags, tracked ghosts) are conditional like in the real code
+				cond := a.T
+				if x.Op == token.LOR {
+					cond = Not(a.T)
+				}
+				run := e.fork(st, cond)
+				skip := e.fork(st, Not(cond))
+				b := e.ev(run, x.Y)
+				e.setState(st, e.merge(run, skip))
+				if x.Op == token.LAND {
+					return Val{T: And(a.T, b.T), GT: types.Typ[types.Bool]}
+				}
+				return Val{T: Or(a.T, b.T), GT: types.Typ[types.Bool]}
+			}
 			saved := st.pc
 			if x.Op == token.LAND {
 				st.pc = e.newPC(st, a.T)
